@@ -79,10 +79,28 @@ def sig_of(prog: dict, clause: str) -> dict:
             "source": prog["id"].split("/")[0]}
 
 
+class _Proxy:
+    """Run with an intercepted violation() (to remember which programs were
+    flagged); everything else is the Run itself."""
+
+    def __init__(self, run: Run, violation: Any):
+        self._run, self.violation = run, violation
+
+    def __getattr__(self, k: str) -> Any:
+        return getattr(self._run, k)
+
+
 def analyse(run: Run, progs: list[dict], results: list[dict], tier: str,
             do_live: bool = True) -> dict:
     by_id = {p["id"]: p for p in progs}
     insts = []
+    flagged: set[str] = set()      # programs on which the real code already misbehaved
+    _violation = run.violation
+
+    def violation(key: str, what: str, **kw: Any) -> None:
+        flagged.add(key.split(":", 1)[0].rsplit("#", 1)[0])
+        _violation(key, what, **kw)
+    run = _Proxy(run, violation)     # type: ignore[assignment]
     for r in results:
         p = by_id[r["id"]]
         if r.get("hang"):
@@ -138,11 +156,13 @@ def analyse(run: Run, progs: list[dict], results: list[dict], tier: str,
                           observed={k: b[k] for k in ("status", "bad_outputs", "stuck")},
                           sig=sig_of(p, kd))
     recs = dc.trace_records(results)
-    with ThreadPoolExecutor(max_workers=3) as ex:
+    with ThreadPoolExecutor(max_workers=2) as ex:
         f_mc = ex.submit(dc.model_check, insts)
         f_tr = ex.submit(dc.validate_traces, recs)
-        f_lv = ex.submit(dc.liveness, insts if do_live else [])
-        mc, val, lv = f_mc.result(), f_tr.result(), f_lv.result()
+        mc, val = f_mc.result(), f_tr.result()
+    # liveness only where safety holds (a deadlocked instance trivially never finishes)
+    safe = [i for i in insts if mc["clauses"].get(i["id"]) == {"ok"}]
+    lv = dc.liveness(safe if do_live else [])
     inst_by_id = {i["id"]: i for i in insts}
     for iid, cl in mc["clauses"].items():
         for c in sorted(cl - {"ok"}):
@@ -168,7 +188,7 @@ def analyse(run: Run, progs: list[dict], results: list[dict], tier: str,
         a, b = set(d["states"]), mc["states"].get(r["id"], set())
         compared += 1
         real_states += len(a)
-        if b - a:
+        if b - a and r["id"] not in flagged:
             raise MachineryError(
                 f"{r['id']}: TLC reaches {len(b - a)} state(s) the exhaustively scheduled real "
                 f"executor never reaches -- the model or the scheduler is wrong; e.g. "
